@@ -79,6 +79,7 @@ pub fn sub(args: &[String]) -> i32 {
     match args.first().map(String::as_str) {
         Some("probe") => probe(&args[1]),
         Some("hprobe") => hprobe(&args[1]),
+        Some("aprobe") => aprobe(&args[1], &args[2], &args[3]),
         Some("mirilane") => crate::mirilane::main(&args[1], args.get(2).and_then(|s| s.parse().ok()).unwrap_or(1)),
         Some("workload") => crate::crash::workload_main(&args[1], &args[2]),
         Some("recover") => crate::crash::recover_main(&args[1], &args[2]),
@@ -157,6 +158,37 @@ fn hprobe(path: &str) -> i32 {
             }
             Err(e) => println!("    ERR {e}"),
         }
+    }
+    0
+}
+
+
+/// `ilv sub aprobe <user> <kg> <file>`: run the blocks of <file> (separated by `----`) as <user> against <kg>
+/// in the C27 world, then try a plain insert as the same user to show the effective permission.
+fn aprobe(user: &str, kg: &str, path: &str) -> i32 {
+    let w = match c27::world() {
+        Ok(w) => w,
+        Err(e) => {
+            println!("world: {e}");
+            return 2;
+        }
+    };
+    let Some((id, a, b)) = w.users.iter().find(|(i, _, _)| i.username == user).cloned() else {
+        println!("no such user");
+        return 2;
+    };
+    println!("user {user}: k1={a} k2={b}");
+    let text = std::fs::read_to_string(path).expect("read");
+    for block in text.split("\n----\n") {
+        println!(">>> {:?}", block);
+        match w.h.exec_as(None, Some(kg), block, Some(&id)) {
+            Ok(r) => println!("    OK {:?}", crate::hnd::rows_str(&r)),
+            Err(e) => println!("    ERR {e}"),
+        }
+    }
+    for k in ["k1", "k2"] {
+        let r = w.h.exec_as(None, Some(k), "+r(999, 999)", Some(&id));
+        println!("then +r(999,999) on {k}: {}", match r { Ok(x) => format!("OK {:?}", crate::hnd::rows_str(&x)), Err(e) => format!("ERR {e}") });
     }
     0
 }
